@@ -65,7 +65,7 @@ def gen(rng, i, tier):
     for n in rng.sample(SIM_NAMES + NEAR, rng.choice([0, 1, 2])):
         tree[n] = GOOD
     return {"fs": rng.choice(["native", "mem"]), "tree": enc_tree(tree), "strict": rng.random() < 0.5, "ignore": rng.random() < 0.4,
-            "encoding": rng.choice([None, None, None, "cp1252"])}
+            "encoding": rng.choice([None, None, None, "cp1252"]), "spelling": rng.choice([None, None, "sep"])}
 
 
 def kwargs(c):
@@ -99,21 +99,23 @@ def impl(c):
         subdirs = [n for n in root_list if t.isdir(t.root + t.sep + n)]
         for n in subdirs + [""]:
             d = t.root + (t.sep + n if n else "")
+            dsp = d + (t.sep if c.get("spelling") == "sep" else "")        # the directory as a caller may spell it: with a trailing separator
             res["listings"]["/" + n if n else ""] = res["listings"].get("", None) if not n else [[x, t.isdir(d + t.sep + x)] for x in t.listdir(d)]
             def mk():
-                sd = SimfileDirectory(d, filesystem=t.fs, ignore_duplicate=c["ignore"])
+                sd = SimfileDirectory(dsp, filesystem=t.fs, ignore_duplicate=c["ignore"])
                 return [t.rel(sd.sm_path), t.rel(sd.ssc_path), t.rel(sd.simfile_path)]
             entry = {"paths": guard(mk)}
-            entry["open"] = guard(lambda: G.sf_obs(SimfileDirectory(d, filesystem=t.fs, ignore_duplicate=c["ignore"]).open(**kwargs(c))))
+            entry["open"] = guard(lambda: G.sf_obs(SimfileDirectory(dsp, filesystem=t.fs, ignore_duplicate=c["ignore"]).open(**kwargs(c))))
             def od():
-                sf, p = simfile.opendir(d, filesystem=t.fs, **kwargs(c))
+                sf, p = simfile.opendir(dsp, filesystem=t.fs, **kwargs(c))
                 return [G.sf_obs(sf), t.rel(p)]
             entry["opendir"] = guard(od)
             res["dirs"][n] = entry
-        res["pack"] = guard(lambda: [t.rel(p) for p in SimfilePack(t.root, filesystem=t.fs).simfile_dir_paths])
+        rsp = t.root + (t.sep if c.get("spelling") == "sep" else "")
+        res["pack"] = guard(lambda: [t.rel(p) for p in SimfilePack(rsp, filesystem=t.fs).simfile_dir_paths])
         res["pack_name"] = guard(lambda: SimfilePack(t.root + t.sep, filesystem=t.fs).name)
-        res["openpack"] = guard(lambda: [[G.sf_obs(sf), t.rel(p)] for sf, p in simfile.openpack(t.root, filesystem=t.fs, **kwargs(c))])
-        res["pack_simfiles"] = guard(lambda: [G.sf_obs(sf) for sf in SimfilePack(t.root, filesystem=t.fs, ignore_duplicate=c["ignore"]).simfiles(**kwargs(c))])
+        res["openpack"] = guard(lambda: [[G.sf_obs(sf), t.rel(p)] for sf, p in simfile.openpack(rsp, filesystem=t.fs, **kwargs(c))])
+        res["pack_simfiles"] = guard(lambda: [G.sf_obs(sf) for sf in SimfilePack(rsp, filesystem=t.fs, ignore_duplicate=c["ignore"]).simfiles(**kwargs(c))])
         return res
     finally:
         t.close()
